@@ -260,7 +260,20 @@ def correspondence(res, tier, rng):
         dt, start = rng.choice(DTS), rng.choice(STARTS)
         nst = rng.randrange(1, 5)
         calls = gen_calls(rng, d, nst, dt, start, cplx=cplx)
-        c = make_control(d, calls)
+        if i % 8 == 5:
+            # use-then-add: the object is queried on the grid, extended (also at existing stamps), queried again
+            c = make_control(d, calls)
+            with quiet():
+                for k in range(nst + 1):
+                    c.get_controls(k, dt=dt, start_time=start)
+            extra = [(cl[0], cl[1], cl[2], rand_superop(rng, d, "nontp", cplx)[0], "nontp")
+                     for cl in calls[:2]] + gen_calls(rng, d, nst, dt, start, cplx=cplx, ncalls=1)
+            for (post_, kind_, key_, a_, _o) in extra:
+                c.add_single(int(key_) if kind_ == "i" else float(key_), np.array(a_), post=post_)
+            calls = calls + extra
+            res.count("gc:use-then-add")
+        else:
+            c = make_control(d, calls)
         step = rng.choice([0, nst, rng.randrange(0, nst + 1), calls[0][2] if calls[0][1] == "i" else 1])
         with quiet():
             pre_c, post_c = c.get_controls(int(step), dt=dt, start_time=start)
@@ -819,6 +832,42 @@ def oracle_single(case):
                    "applied at their step, side and in order" % (first_bad, start + first_bad * dt))
 
 
+def oracle_control_reuse(case):
+    """A Control that was already used (get_controls / compute_dynamics on a grid) and is then
+    extended by further add_single calls behaves, on the same grid, like a fresh Control holding
+    all controls: later additions take effect (no stale state from the first use)."""
+    import oqupy
+    d, n, dt, start = case["d"], case["num_steps"], case["dt"], case["start"]
+    h, rho = unjmat(case["ham"]), unjmat(case["state"])
+
+    def tup(cs):
+        return [(c["post"], c["kind"], c["key"], unjmat(c["op"]), "") for c in cs]
+    first, later = tup(case["calls"]), tup(case["calls_later"])
+
+    def use(c):
+        with quiet():
+            gc = [c.get_controls(k, dt=dt, start_time=start) for k in range(n + 1)]
+            dyn = oqupy.compute_dynamics(system=oqupy.System(h), initial_state=rho.copy(), dt=dt,
+                                         num_steps=n, start_time=start, control=c,
+                                         progress_type="silent")
+        return gc, [np.array(x) for x in dyn.states]
+    used = make_control(d, first)
+    use(used)
+    for (post, kind, key, a, _o) in later:
+        used.add_single(int(key) if kind == "i" else float(key), np.array(a), post=post)
+    gc1, st1 = use(used)
+    gc2, st2 = use(make_control(d, first + later))
+    for k in range(n + 1):
+        for side in (0, 1):
+            a, b = gc1[k][side], gc2[k][side]
+            if (a is None) != (b is None) or (a is not None and not close(a, b, 1e-12)):
+                return False, ("get_controls(%d)[%s] of the re-used Control differs from a fresh Control "
+                               "holding all controls" % (k, "post" if side else "pre"))
+        if not close(st1[k], st2[k], 1e-10):
+            return False, "state %d of the run with the re-used Control differs from a fresh Control" % k
+    return True, "ok"
+
+
 def oracle_get_controls_mixed(case):
     """Control.get_controls for int- and float-keyed controls of one side landing on one step: the
     returned operator is the product of ALL of them - int part then float part or the other way
@@ -1066,6 +1115,7 @@ ORACLES = {"compute_dynamics": oracle_single, "PtTebd": oracle_chain,
            "PtTebd-homogeneity": oracle_chain_homogeneity,
            "compute_dynamics-linearity": oracle_single_linearity,
            "Control.get_controls": oracle_get_controls_mixed,
+           "Control-reuse": oracle_control_reuse,
            "ChainControl.get_single_site_controls": oracle_chain_get}
 
 
@@ -1161,6 +1211,27 @@ def search(res, rng=None):
             run("Control float time half-way between two steps acts exactly once",
                 single_case(rng, 2, 4, dt, start, [(False, "f", t, op(), ""), (True, "f", t, op(), ""),
                                                    (False, "f", t, op(), "")]))
+    # -- use-then-add histories: a Control already used on a grid is extended and used again -------
+    for post in (False, True):
+        t1 = 0.5 + 1 * 0.25 + 0.02
+        first = [(post, "f", t1, op(), ""), (False, "i", 2, op(), "")]
+        for label, later in (("existing float stamp", [(post, "f", t1, op(), "")]),
+                             ("new float stamp", [(post, "f", 0.5 + 2 * 0.25 - 0.03, op(), "")]),
+                             ("new float stamp on the same step", [(post, "f", t1 + 0.01, op(), "")]),
+                             ("existing int key", [(False, "i", 2, op(), "")]),
+                             ("new int key", [(post, "i", 0, op(), "")]),
+                             ("several", [(post, "f", t1, op(), ""), (post, "i", 1, op(), ""),
+                                          (not post, "f", t1, op(), "")])):
+            base = single_case(rng, 2, 3, 0.25, 0.5, first)
+            case = dict(base, api="Control-reuse",
+                        calls_later=single_case(rng, 2, 3, 0.25, 0.5, later)["calls"])
+            run("Control used, then add_single (%s): the addition must act" % label, case)
+    # -- far from the origin: two float stamps one step apart both act, each at its own step -------
+    for start in (1.0e5, -3.0e4):
+        for post in (False, True):
+            calls = [(post, "f", start + 1 * 0.1, op(), ""), (post, "f", start + 2 * 0.1, op(), "")]
+            run("Control two float stamps one step apart far from the origin",
+                single_case(rng, 2, 3, 0.1, start, calls))
     # -- identity ------------------------------------------------------------------------------
     for post in (False, True):
         base = [(False, "i", 1, op(), ""), (True, "i", 1, op(), "")]
